@@ -65,6 +65,44 @@ def main():
     rng = random.Random(cfg["seed"])
     warnings.simplefilter("ignore")
     out = {"n": 0, "keys": [], "bad": [], "dist": {}, "samples": []}
+    # ---- the same call gives the same outcome the first, second and third time - also its diagnostics: under the
+    #      "error" filter (a warning is an exception) and under "always" (the warnings are counted) ----
+    const = lambda z: 3.0  # noqa: E731
+    pristine = {}
+
+    def guarded(z):
+        try:
+            return grad(const)(z)
+        except UserWarning:
+            return 10.0 * z
+    thunks = [("grad of a constant", lambda: grad(const)(1.0)), ("jacobian of a constant", lambda: jacobian(lambda z: onp.ones(2))(onp.array([1.0, 2.0]))),
+              ("make_jvp of a constant", lambda: make_jvp(const)(1.0)(1.0)[1]), ("ordinary gradient", lambda: grad(lambda z: anp.sum(z * z))(onp.array([1.0, 2.0]))),
+              ("enclosing differentiation catching the inner diagnostic", lambda: grad(lambda z: z * z + guarded(z))(2.0)),
+              ("hessian of a linear function", lambda: hessian(lambda z: anp.sum(z * 2.0))(onp.array([1.0, 2.0]))),
+              ("value_and_grad of a constant", lambda: value_and_grad(const)(1.0)[1])]
+
+    def outcome(th, mode):
+        with warnings.catch_warnings(record=(mode == "always")) as rec:
+            warnings.simplefilter(mode)
+            try:
+                r = ("ok", onp.asarray(th()).tolist())
+            except Exception as ex:
+                r = ("raised", type(ex).__name__)
+            return r + ((len(rec),) if mode == "always" else ())
+    def repeat_outcomes(when):
+        for mode in ("error", "always"):
+            rounds = [[outcome(th, mode) for _, th in thunks] for _ in range(3)]
+            for i, (name, _) in enumerate(thunks):
+                out["n"] += 1
+                out["keys"].append("repeat-%s|%s|%s" % (mode, name, when))
+                seen = [rnd[i] for rnd in rounds]
+                first = pristine.setdefault((mode, name), seen[0])      # the very first call in this process
+                if not (seen[0] == seen[1] == seen[2] == first):
+                    out["bad"].append({"operator": name, "fault": "repeat under warnings filter %r" % mode,
+                                       "problems": ["%s: the very first call in the process gave %r, later calls %r" % (when, first, seen)],
+                                       "site": {"oracle": "operator-history"}})
+        warnings.simplefilter("ignore")
+    repeat_outcomes("first thing in the process")
     base = canaries()
     snap0 = snapshot()
     x = onp.array([0.5, -1.5, 2.0])
@@ -157,6 +195,7 @@ def main():
                 out["bad"].append({"operator": oname, "fault": "operator-reuse", "problems": probs, "site": {"oracle": "operator-history"}})
         except Exception as ex:
             out["bad"].append({"operator": oname, "fault": "operator-reuse", "problems": ["raised %r" % (ex,)], "site": {"oracle": "operator-history"}})
+    repeat_outcomes("at the end, after every history above")
     # ---- a tracer that outlived its differentiation, used later as a plain constant ----
     for mode in ("rev", "fwd"):
         leak = []
